@@ -319,6 +319,33 @@ def check(ctx) -> None:
 
     c12.rule_k1(ctx, "C03-V6")
     rule_v7(ctx)
+    rule_v8(ctx, pl)
+
+
+def rule_v8(ctx, pl: Pipeline, rule_id: str = "C03-V8") -> None:
+    """A solved row has an empty issue.  After the MCS stage has taken its verdicts, an issue text may only be written to
+    a row that is unsolved at that point (`not row[solved]`) or that is demoted in the same branch (`solved := False`).
+    The confidence filter relies on it (it asserts an empty issue on the rows it demotes)."""
+    ctx.rule(rule_id, "after the MCS stage an issue is written only to rows that are unsolved or demoted in the same branch", 2)
+    solved, issue = pl.solved_col.text, pl.issue_col.text
+    mcs_idx = max([x.index for x in pl.stages if x.attr == "mcs_method"] or [-1])
+    ctx.require(mcs_idx >= 0, "MCS method stage not found in __run_pipeline")
+    seen = set()
+    for st in pl.stages:
+        if st.index <= mcs_idx:
+            continue
+        for s_ in st.stores:
+            if issue not in s_.keytexts or id(s_.node) in seen:
+                continue
+            seen.add(id(s_.node))
+            if isinstance(s_.value, ast.Constant) and s_.value.value == "":
+                continue
+            unsolved = any(a.kind == "truth" and a.op == "not" and solved in set(map(str, a.keys)) for a in s_.atoms)
+            demoted = any(solved in x.keytexts and isinstance(x.value, ast.Constant) and x.value.value is False and c01.same_or_adjacent(x.node, s_.node) for x in st.stores)
+            ok = unsolved or demoted
+            ctx.instance(rule_id, "stage %d %s writes an issue (%s): row unsolved: %s, demoted in the same branch: %s" % (st.index, st.label, unparse(s_.value)[:30] if s_.value is not None else None, unsolved, demoted), s_.where(), ok=ok)
+            if not ok:
+                ctx.finding(rule_id, "%s:issue-on-solved-row" % s_.func.qualname.split("synrbl.", 1)[-1], s_.where(), "stage %d (%s) writes an issue text to rows that can still be solved: a solved row then carries an issue, and the confidence filter's `issue == \"\"` assertion fails for it as soon as the threshold exceeds its confidence (the batch is lost)" % (st.index, st.label))
 
 
 def rule_v7(ctx) -> None:
